@@ -31,12 +31,16 @@ META = {
                   "basis); real gradient = stacked complex one; mass matrices are diagonal, options act entrywise with sqrt "
                   "before inverse, vertex masses sum to 3 x area (4 x volume), face/cell masses to the area/volume, areas and "
                   "vertex masses are positive on non-degenerate meshes (R); graph Laplacian = degree - adjacency; adjacency and "
-                  "vertex-edge / vertex-face operators have exactly the documented coefficient per incidence. PARTIAL: "
-                  "Re(G* A G) = L is proved for the face-by-face accumulation of the generated gradient rows, not through the "
-                  "generic sparse product; the total (= area) and positivity of the EDGE mass matrix are only pinned (share "
-                  "area/3) and tested, not proved (needs manifoldness of direct_face). Everything is also tested on every run "
-                  "by kernel-evaluated correspondence batches on generated meshes with and without border, tets, polylines, "
-                  "every option.",
+                  "vertex-edge / vertex-face operators have exactly the documented coefficient per incidence; Re(G* A G) = L "
+                  "literally for the model's matrices (generic sparse products, any direct orthonormal tangent bases; over R "
+                  "with the code's bases). CONDITIONAL on decidable mesh tests that the kernel evaluates on every generated "
+                  "case: the edge mass matrix sums to the total area when the stored edge list covers each face's three "
+                  "half-edges exactly once (edge_cover_ok; positivity of edge masses proved over R), the tetrahedral dual "
+                  "Laplacian is symmetric when cell_to_cell is (cell_adjacency_ok). Everything is also tested on every run "
+                  "by kernel-evaluated correspondence batches on generated meshes with and without border, isolated vertices, "
+                  "explicit edge lists with free edges, tets, polylines, every option - each operator on a fresh mesh, and "
+                  "random call sequences on one mesh object (after persistent mouette.attributes) with a before/after "
+                  "snapshot of everything stored on the mesh.",
     "level_note": "Trusted: Coq kernel + vm_compute; the translator vf/translate/c08.py; the correspondence harness "
                   "(mesh generators, driver canonicalisation of scipy matrices = summed coefficients, tolerance 1e-9 on "
                   "binary64 runs from integer coordinates, 1e-12 against exact rationals); scipy's sparse constructors / products "
@@ -359,9 +363,9 @@ def gen_polyline(rng, tier):
 
 
 SURF_OPS = ["lap:1", "lap:0", "glap", "ced:1", "ced:0", "laptri:1", "laptri:0", "lapedges:1", "lapedges:0",
-            "gradc:conn", "gradr:conn", "massv:0,0", "massv:1,0", "massv:0,1", "massv:1,1", "massf:0", "massf:1",
+            "gradc:conn", "gradr:conn", "gag:conn", "massv:0,0", "massv:1,0", "massv:0,1", "massv:1,1", "massf:0", "massf:1",
             "masse:0", "masse:1", "adj:one", "adj:length", "adj:custom", "v2e:0", "v2e:1", "v2f"]
-FLAT_OPS = ["gradc:flat", "gradr:flat"]
+FLAT_OPS = ["gradc:flat", "gradr:flat", "gag:flat"]
 VOL_OPS = ["vollap", "tetlap", "massvv:0,0", "massvv:1,0", "massvv:0,1", "massvv:1,1", "massvc:0,0", "massvc:1,0",
            "massvc:0,1", "massvc:1,1", "glap", "adj:one", "adj:length", "adj:custom", "v2e:0", "v2e:1"]
 LINE_OPS = ["glap", "adj:one", "adj:length", "adj:custom", "v2e:0", "v2e:1"]
@@ -384,7 +388,7 @@ def finish_case(rng, c, sequence=None):
         ops = list(SURF_OPS) + (FLAT_OPS if c.get("planar") else [])
         pre = SURF_PRE
         if c.get("E"):   # dangling edges: the connection / feature detector is outside C08 there
-            ops = [o for o in ops if not o.startswith("grad")]
+            ops = [o for o in ops if not o.startswith(("grad", "gag"))]
             pre = [a for a in pre if a != "vertex_normals"]
     elif c["kind"] == "volume":
         ops = list(VOL_OPS)
@@ -461,6 +465,8 @@ def opc_term(name, case, nedges):
         return "(OLapEdges %s)" % b2(arg)
     if base == "gradr":
         return "(OGradReal %s)" % coq_bool(arg == "flat")
+    if base == "gag":
+        return "(OGag %s)" % coq_bool(arg == "flat")
     if base == "massv":
         return "(OMassV %s)" % b2(arg)
     if base == "massf":
@@ -799,6 +805,9 @@ def oracle_outs(case, obs):
                             R2 = Gr.T @ np.diag(np.repeat(area, 2)) @ Gr
                             if not close(R2, L):
                                 bad.append(("gradr:%s/GAG" % conn, "G^T A G (real gradient) differs from the cotan laplacian"))
+            GA = get("gag:" + conn, (n, n))
+            if GA is not None and L is not None and not close(GA, L):
+                bad.append(("gag:%s/value" % conn, "Re(G* A G) computed with scipy's products on one mesh differs from the cotan laplacian"))
         # masses
         used = np.zeros(n, dtype=bool)
         for f in F:
